@@ -2064,6 +2064,46 @@ where
     }
 }
 
+/// Verification hook (compiled only with `--cfg anda_verif`): read-only dump of the
+/// in-memory bucket bookkeeping that decides what the next flush rewrites.
+#[allow(unexpected_cfgs)]
+#[cfg(anda_verif)]
+impl<T> BM25Index<T>
+where
+    T: Tokenizer + Clone,
+{
+    /// `(bucket id, is_dirty, listed tokens, doc_ids)` per bucket, sorted;
+    /// `(token, owning bucket, entries)` per posting, sorted; `total_tokens`.
+    #[allow(clippy::type_complexity)]
+    pub fn verif_dump(
+        &self,
+    ) -> (
+        Vec<(u32, bool, Vec<String>, Vec<u64>)>,
+        Vec<(String, u32, Vec<(u64, usize)>)>,
+        u64,
+    ) {
+        let mut buckets: Vec<(u32, bool, Vec<String>, Vec<u64>)> = self
+            .buckets
+            .iter()
+            .map(|b| {
+                let mut tokens: Vec<String> = b.tokens.iter().cloned().collect();
+                tokens.sort();
+                let mut docs: Vec<u64> = b.doc_ids.iter().copied().collect();
+                docs.sort_unstable();
+                (*b.key(), b.is_dirty(), tokens, docs)
+            })
+            .collect();
+        buckets.sort();
+        let mut postings: Vec<(String, u32, Vec<(u64, usize)>)> = self
+            .postings
+            .iter()
+            .map(|p| (p.key().clone(), p.0, p.1.iter().copied().collect()))
+            .collect();
+        postings.sort();
+        (buckets, postings, self.total_tokens.load(Ordering::Relaxed))
+    }
+}
+
 #[cfg(test)]
 mod tests {
     use super::*;
